@@ -23,7 +23,7 @@ package autonatv2
 //@ loop 0 invariant forall x int :: ghost.consumed(x) >= old(ghost.consumed(x))
 //@ ensures result == nil ==> ghost.consumed(r) >= old(ghost.consumed(r)) + numBytes
 //@ ensures forall x int :: ghost.consumed(x) >= old(ghost.consumed(x))
-//@ modifies ghost.consumed(_), elems(_)
+//@ modifies ghost.consumed(_)
 
 //@ func getDialData
 //@ prop C16
@@ -31,7 +31,7 @@ package autonatv2
 //@ ensures result == nil ==> ghost.consumed(s) >= old(ghost.consumed(s)) + minHandshakeSizeBytes
 //@ ensures result == nil ==> called(WriteMsg, 0) && ret(WriteMsg, 0, 0) == nil
 //@ ensures forall x int :: ghost.consumed(x) >= old(ghost.consumed(x))
-//@ modifies ghost.consumed(_), elems(_), *msg
+//@ modifies ghost.consumed(_), *msg
 
 //@ func amplificationAttackPrevention
 //@ prop C16
